@@ -170,7 +170,7 @@ def r11_5(prog: Program, rep: Report):
         rep.check(
             not amb, "R11.5", q, f.loc, "memoised resolver is pure",
             f"memoised on (ref, module) but resolves the module by inspecting the caller's stack ({sorted(a.split(' in ')[-1] for a in amb)[:2]}): the first caller's module is served to every later caller of the same bare name",
-            detail="ambient",
+            detail=E.ambient_detail(amb),
         )  # fmt: skip
     # forwardref() derives the name from the type and strips the module prefix
     fr = prog.function("typelib.py.refs.forwardref")
@@ -198,6 +198,18 @@ def r11_7(prog: Program, rep: Report, rule="R11.7"):
                 if x[0] == "call" and x[1][0] == "attr" and x[1][2] == "replace" and len(x[2]) == 2 and x[2][1] == ("const", "") and T.contains(x[2][0], lambda y: y[0] == "fmt" or y == ("const", ".")):
                     anywhere.append(T.show(x)[:80])
     rep.check(not anywhere, rule, fr.qualname, fr.loc, "the module qualifier is stripped from the reference name only where it is a prefix", f"forwardref() deletes '<module>.' wherever it occurs in the name (str.replace): a class Item.Part in a module named 'm' is referenced as 'ItePart', 'pathlib.Path' in a module named 'lib' as 'pathPath'", detail="prefix-strip")
+    # the module a caller names wins: every other answer of the resolver is given only when none was named
+    rm = prog.functions.get("typelib.py.refs._resolve_module_name")
+    if rm is not None and len(rm.params) > 1:
+        mp = ("param", rm.params[1])
+        none_given = ("cmp", "is", mp, ("const", None))
+        overridden = []
+        for p, r in P.returns(P.paths_of(prog, rm)):
+            if r == mp:
+                continue
+            if not any(g == none_given and pol for g, pol in p.guards()):
+                overridden.append(T.show(r)[:60])
+        rep.check(not overridden, rule, rm.qualname, rm.loc, "an explicitly named module is what the resolver answers", f"_resolve_module_name can answer {overridden[0] if overridden else ''} although the caller named the module: a reference such as 'typing.Optional[Node]' declared in module m is then evaluated in `typing`, where Node does not exist (NameError), instead of in m", detail="explicit-module-wins")
     for p, r in P.returns(P.paths_of(prog, fr)):
         if not T.is_call_to(r, "typing.ForwardRef"):
             continue
